@@ -88,7 +88,9 @@ func runNative(bin string, env []string, jobs []nativeJob) ([]nativeResult, stri
 // connection and checks that what it does is something the explorer saw.
 func conformance(r *chk.Run, prop string, jobs []Job, results []*e1.Result) {
 	bin := os.Getenv("VERIF_NATIVE_BIN")
-	if bin == "" {
+	if bin == "" || r.Violated() {
+		// the exploration already decided the property; free runs of a tree
+		// that deadlocks would only burn their time-outs
 		return
 	}
 	runs := 10
@@ -167,7 +169,7 @@ func clipS(s string, n int) string {
 // every report by the call sites of its two accesses.
 func racePass(r *chk.Run, jobs []Job) {
 	bin := os.Getenv("VERIF_NATIVE_RACE_BIN")
-	if bin == "" {
+	if bin == "" || r.Violated() {
 		return
 	}
 	runs := 3
